@@ -114,6 +114,58 @@ void lemma_CompoundParser_null(void)
   __CPROVER_assert(0, "CANARY null formula");
 }
 
+#if defined(LEMMA_ADD) || defined(LEMMA_SCAN)
+/* realloc, assumed contract in executable form.  The call sites of xraylib-parser.c pass the element size of their pointer
+ * argument (harness/realloc_typed.h, force-included): an element-wise typed copy keeps the constant formula text visible
+ * to the symbolic execution, which CBMC's own model (whole-array copy) does not                                          */
+void *xrlv_realloc(void *p, size_t n, size_t elem)
+{
+  size_t i; void *q;
+  /* one typed allocation site per possible length: objects of constant size and known element type stay field-wise scalars
+   * (an object of symbolic size becomes an unbounded byte array and every record access a byte-level extraction)         */
+  if (elem == sizeof(char *)) {
+    __CPROVER_assert(n % sizeof(char *) == 0 && n >= sizeof(char *) && n <= 8 * sizeof(char *), "harness: pointer lists of 1..8 entries");
+    if (n == 1 * sizeof(char *)) q = malloc(1 * sizeof(char *)); else if (n == 2 * sizeof(char *)) q = malloc(2 * sizeof(char *));
+    else if (n == 3 * sizeof(char *)) q = malloc(3 * sizeof(char *)); else if (n == 4 * sizeof(char *)) q = malloc(4 * sizeof(char *));
+    else if (n == 5 * sizeof(char *)) q = malloc(5 * sizeof(char *)); else if (n == 6 * sizeof(char *)) q = malloc(6 * sizeof(char *));
+    else if (n == 7 * sizeof(char *)) q = malloc(7 * sizeof(char *)); else q = malloc(8 * sizeof(char *));
+    __CPROVER_assume(q != NULL);
+    if (p == NULL) return q;
+    for (i = 0; (i + 1) * sizeof(char *) <= n && (i + 1) * sizeof(char *) <= __CPROVER_OBJECT_SIZE(p); i++) ((char **)q)[i] = ((char **)p)[i];
+  } else if (elem == sizeof(int)) {
+    __CPROVER_assert(n % sizeof(int) == 0 && n >= sizeof(int) && n <= 6 * sizeof(int), "harness: int lists of 1..6 entries");
+    if (n == 1 * sizeof(int)) q = malloc(1 * sizeof(int)); else if (n == 2 * sizeof(int)) q = malloc(2 * sizeof(int));
+    else if (n == 3 * sizeof(int)) q = malloc(3 * sizeof(int)); else if (n == 4 * sizeof(int)) q = malloc(4 * sizeof(int));
+    else if (n == 5 * sizeof(int)) q = malloc(5 * sizeof(int)); else q = malloc(6 * sizeof(int));
+    __CPROVER_assume(q != NULL);
+    if (p == NULL) return q;
+    for (i = 0; (i + 1) * sizeof(int) <= n && (i + 1) * sizeof(int) <= __CPROVER_OBJECT_SIZE(p); i++) ((int *)q)[i] = ((int *)p)[i];
+  } else {
+    __CPROVER_assert(elem == sizeof(struct compoundAtom), "harness: realloc of pointer lists, int lists and element lists only");
+    __CPROVER_assert(n % sizeof(struct compoundAtom) == 0 && n >= sizeof(struct compoundAtom) && n <= 5 * sizeof(struct compoundAtom), "harness: element lists of 1..5 records");
+    if (n == 1 * sizeof(struct compoundAtom)) q = malloc(1 * sizeof(struct compoundAtom)); else if (n == 2 * sizeof(struct compoundAtom)) q = malloc(2 * sizeof(struct compoundAtom));
+    else if (n == 3 * sizeof(struct compoundAtom)) q = malloc(3 * sizeof(struct compoundAtom)); else if (n == 4 * sizeof(struct compoundAtom)) q = malloc(4 * sizeof(struct compoundAtom));
+    else q = malloc(5 * sizeof(struct compoundAtom));
+    __CPROVER_assume(q != NULL);
+    if (p == NULL) return q;
+    for (i = 0; (i + 1) * sizeof(struct compoundAtom) <= n && (i + 1) * sizeof(struct compoundAtom) <= __CPROVER_OBJECT_SIZE(p); i++) ((struct compoundAtom *)q)[i] = ((struct compoundAtom *)p)[i];
+  }
+  free(p);
+  return q;
+}
+/* calloc of a list of doubles, same idea: one typed allocation site per length, zero-filled */
+void *xrlv_calloc(size_t nmemb, size_t elem)
+{
+  double *q; size_t i;
+  __CPROVER_assert(elem == sizeof(double) && nmemb >= 1 && nmemb <= 6, "harness: calloc of 1..6 doubles");
+  if (nmemb == 1) q = malloc(1 * sizeof(double)); else if (nmemb == 2) q = malloc(2 * sizeof(double)); else if (nmemb == 3) q = malloc(3 * sizeof(double));
+  else if (nmemb == 4) q = malloc(4 * sizeof(double)); else if (nmemb == 5) q = malloc(5 * sizeof(double)); else q = malloc(6 * sizeof(double));
+  __CPROVER_assume(q != NULL);
+  for (i = 0; i < nmemb && i < 6; i++) q[i] = 0.0;
+  return q;
+}
+#endif
+
 /* ------------------------------------------------------------------ add_compound_data (bounded shapes NA_EL x NB_EL) */
 #ifdef LEMMA_ADD
 #ifndef NA_EL
@@ -170,7 +222,7 @@ void lemma_add_compound_data(void)
 #ifndef SHAPE
 #define SHAPE 0
 #endif
-static const char *const g_shapes[] = { "A", "AB", "B3A", "AB2A", "(AB)2", "AbCdB3", "((A))", "A(AB)", "C(BA)", "A(BC)2", "(AB)(CA)3", "B(A(CD)2)3", "Ab2(CdA)", "D(CA)B(DA)" /*ATTEMPT*/ };
+static const char *const g_shapes[] = { "A", "AB", "B3A", "AB2A", "(AB)2", "AbCdB3", "((A))", "A(AB)", "C(BA)", "A(BC)2", "(AB)(CA)3", "Ab2(CdA)", /*THOROUGH*/ "B(A(CD)2)3", "D(CA)B(DA)" };
 int g_z[4], g_known[4], g_zero_seen, g_unknown_seen;
 static struct MendelElement g_me;
 void *bsearch(const void *key, const void *base, size_t n, size_t sz, int (*cmp)(const void *, const void *))
@@ -194,36 +246,6 @@ void qsort(void *base, size_t n, size_t sz, int (*cmp)(const void *, const void 
   struct compoundAtom *v = (struct compoundAtom *)base, t; size_t i, j;
   __CPROVER_assert(sz == sizeof(struct compoundAtom), "qsort on the element list");
   for (i = 1; i < n; i++) for (j = i; j > 0; j--) if (cmp(&v[j - 1], &v[j]) > 0) { t = v[j - 1]; v[j - 1] = v[j]; v[j] = t; }
-}
-/* realloc, assumed contract in executable form.  The call sites of xraylib-parser.c pass the element size of their pointer
- * argument (harness/realloc_typed.h, force-included): an element-wise typed copy keeps the constant formula text visible
- * to the symbolic execution, which CBMC's own model (whole-array copy) does not                                          */
-void *xrlv_realloc(void *p, size_t n, size_t elem)
-{
-  size_t i; void *q;
-  /* one typed allocation site per possible length: objects of constant size and known element type stay field-wise scalars
-   * (an object of symbolic size becomes an unbounded byte array and every record access a byte-level extraction)         */
-  if (elem == sizeof(char *)) {
-    __CPROVER_assert(n % sizeof(char *) == 0 && n >= sizeof(char *) && n <= 8 * sizeof(char *), "harness: pointer lists of 1..8 entries");
-    if (n == 1 * sizeof(char *)) q = malloc(1 * sizeof(char *)); else if (n == 2 * sizeof(char *)) q = malloc(2 * sizeof(char *));
-    else if (n == 3 * sizeof(char *)) q = malloc(3 * sizeof(char *)); else if (n == 4 * sizeof(char *)) q = malloc(4 * sizeof(char *));
-    else if (n == 5 * sizeof(char *)) q = malloc(5 * sizeof(char *)); else if (n == 6 * sizeof(char *)) q = malloc(6 * sizeof(char *));
-    else if (n == 7 * sizeof(char *)) q = malloc(7 * sizeof(char *)); else q = malloc(8 * sizeof(char *));
-    __CPROVER_assume(q != NULL);
-    if (p == NULL) return q;
-    for (i = 0; (i + 1) * sizeof(char *) <= n && (i + 1) * sizeof(char *) <= __CPROVER_OBJECT_SIZE(p); i++) ((char **)q)[i] = ((char **)p)[i];
-  } else {
-    __CPROVER_assert(elem == sizeof(struct compoundAtom), "harness: realloc of pointer lists and element lists only");
-    __CPROVER_assert(n % sizeof(struct compoundAtom) == 0 && n >= sizeof(struct compoundAtom) && n <= 5 * sizeof(struct compoundAtom), "harness: element lists of 1..5 records");
-    if (n == 1 * sizeof(struct compoundAtom)) q = malloc(1 * sizeof(struct compoundAtom)); else if (n == 2 * sizeof(struct compoundAtom)) q = malloc(2 * sizeof(struct compoundAtom));
-    else if (n == 3 * sizeof(struct compoundAtom)) q = malloc(3 * sizeof(struct compoundAtom)); else if (n == 4 * sizeof(struct compoundAtom)) q = malloc(4 * sizeof(struct compoundAtom));
-    else q = malloc(5 * sizeof(struct compoundAtom));
-    __CPROVER_assume(q != NULL);
-    if (p == NULL) return q;
-    for (i = 0; (i + 1) * sizeof(struct compoundAtom) <= n && (i + 1) * sizeof(struct compoundAtom) <= __CPROVER_OBJECT_SIZE(p); i++) ((struct compoundAtom *)q)[i] = ((struct compoundAtom *)p)[i];
-  }
-  free(p);
-  return q;
 }
 char *strndup(const char *s, size_t n)
 {
